@@ -36,6 +36,20 @@ func RunDSL() error {
 			// Let's cross that bridge once we get there
 			return fmt.Errorf("too many generated roots, infinite loop?")
 		}
+		// Pick up the roots registered by the DSL that just ran.
+		all, err := Context.Roots()
+		if err != nil {
+			return err
+		}
+	next:
+		for _, r := range all {
+			for _, o := range roots {
+				if o.EvalName() == r.EvalName() {
+					continue next
+				}
+			}
+			roots = append(roots, r)
+		}
 	}
 	if Context.Errors != nil {
 		return Context.Errors
